@@ -186,12 +186,14 @@ fn run_plan(plan: &Value, tr: &mut Tracer) {
             Outcome::Panic(m) => { res = "panic".to_string(); ek = m; }
         }
     } else {
-        let mut c = Connector::new()
-            .screen(gu(&cfg, "w", 800) as u16, gu(&cfg, "h", 600) as u16)
-            .credentials(domain.clone(), user.clone(), password.clone())
-            .set_restricted_admin_mode(gb(&cfg, "admin"))
-            .auto_logon(gb(&cfg, "auto"))
-            .blank_creds(gb(&cfg, "blank"))
+        // the builder methods commute: the configuration must not depend on the order of the calls
+        let mut c = Connector::new().screen(gu(&cfg, "w", 800) as u16, gu(&cfg, "h", 600) as u16);
+        if gb(&cfg, "auto_first") {
+            c = c.auto_logon(gb(&cfg, "auto")).blank_creds(gb(&cfg, "blank")).set_restricted_admin_mode(gb(&cfg, "admin")).credentials(domain.clone(), user.clone(), password.clone());
+        } else {
+            c = c.credentials(domain.clone(), user.clone(), password.clone()).set_restricted_admin_mode(gb(&cfg, "admin")).auto_logon(gb(&cfg, "auto")).blank_creds(gb(&cfg, "blank"));
+        }
+        let mut c = c
             .check_certificate(gb(&cfg, "check"))
             .layout(layout_of(gs(&cfg, "layout", "us")))
             .name(name.clone())
